@@ -471,7 +471,7 @@ def discover():
 OBJECT_KINDS = ['ChargeInfo', 'DipolarChargeInfo', 'LegCharge', 'LegPipe', 'Array', 'Site', 'GroupedSite', 'MPS', 'MPS_infinite', 'MPS_segment', 'MPO',
                 'Lattice', 'IrregularLattice', 'HelicalLattice', 'MultiSpeciesLattice', 'Model', 'TermList', 'OnsiteTerms', 'CouplingTerms',
                 'MultiCouplingTerms', 'ExponentiallyDecayingTerms', 'TruncationError', 'Config', 'Hdf5Exportable', 'list_of_legs', 'two_MPS', 'SimpleLattice',
-                'TrivialLattice', 'UniformMPS', 'PurificationMPS']
+                'TrivialLattice', 'UniformMPS', 'PurificationMPS', 'MomentumMPS']
 
 
 @st.composite
@@ -541,6 +541,15 @@ def build_object(spec):
             from tenpy.networks.uniform_mps import UniformMPS
             return UniformMPS.from_MPS(psi)
         return psi
+    if kind == 'MomentumMPS':
+        from tenpy.networks.uniform_mps import UniformMPS
+        from tenpy.networks.momentum_mps import MomentumMPS
+        sites = [site] * 2
+        idx = [int(rng.integers(0, site.dim)) for _ in sites]
+        psi = MPS.from_product_state(sites, idx, bc='infinite', permute=False, unit_cell_width=2)
+        u = UniformMPS.from_MPS(psi)
+        Xs = [u.get_B(i, 'AC').copy() for i in range(2)]
+        return MomentumMPS(Xs, u, float(rng.uniform(0, 1)), n_sites=1)
     if kind == 'PurificationMPS':
         from tenpy.networks.purification_mps import PurificationMPS
         return PurificationMPS.from_infiniteT([site] * 3, bc='finite', unit_cell_width=3)
@@ -661,7 +670,7 @@ def enum_discovery(tier, shard, nshards, seed):
 
 COVERED = {'ChargeInfo', 'DipolarChargeInfo', 'LegCharge', 'LegPipe', 'Array', 'Site', 'GroupedSite', 'MPS', 'MPO', 'Lattice', 'IrregularLattice', 'HelicalLattice',
            'MultiSpeciesLattice', 'TermList', 'OnsiteTerms', 'CouplingTerms', 'MultiCouplingTerms', 'ExponentiallyDecayingTerms', 'TruncationError', 'Config',
-           'Hdf5Exportable', 'SimpleLattice', 'TrivialLattice', 'UniformMPS', 'MPSEnvironment', 'PurificationMPS', 'CouplingModel', 'Model', 'MPOModel',
+           'Hdf5Exportable', 'SimpleLattice', 'TrivialLattice', 'UniformMPS', 'MPSEnvironment', 'PurificationMPS', 'MomentumMPS', 'CouplingModel', 'Model', 'MPOModel',
            'NearestNeighborModel', 'CouplingMPOModel'}
 
 
